@@ -147,7 +147,7 @@ def run(ctx):
                                           "broken": lean["problems"]}, False)
     cov = {
         "evaluations": len(cases) + len(lines),
-        "distinct_nontrivial": len(cases),
+        "distinct_nontrivial": len(set(map(tuple, cases))) if cases and isinstance(cases[0], (list, tuple)) else len(set(cases)),
         "rule": "%d code points (all below U+%04X, sampled above, every range boundary) x %d syntactic positions "
                 "x 5 configurations: real loader outcome judged against the specification's sets and the error's "
                 "pos/lineno/colno re-derived from the text; same texts through the parser model; char_allowed vs "
